@@ -1,5 +1,6 @@
 import Hive.Proofs.TimedPend
 import Hive.Proofs.TimedBound
+import Hive.Proofs.TimedWg
 import Hive.Gen.C18_Skel
 /-!
 # C18 — timed Queue / Executor / TaskExecutor: never early, at most once, cancel honoured
@@ -367,6 +368,43 @@ for a worker that sleeps forever). -/
 theorem C18_shutdown_wakes_pollers {c : Cfg Sh Th} (hr : Reachable c) (hs : c.1.isShutdown = true)
     (hsd : tsum sdN c.2 = 0) : ∀ t ∈ c.2, t = .parked → step c.1 t ≠ [] :=
   shutdown_wakes hr.all hs hsd
+
+/-- **`Executor.Shutdown` returns only when nothing is pending.**  `Executor.Shutdown` without
+`DontWaitForShutdown` waits for the WaitGroup (`C18_shutdown_return_step`: its last step is enabled only
+at `wg = 0`).  In every reachable configuration with the queue shut down, `Queue.Shutdown` through and
+`wg = 0`: the heap is empty and every worker goroutine has ended, so no poller holds an element
+— everything that was accepted and neither cancelled nor dropped by `CancelPendingElements` has been
+handed out (by `C18_at_most_once` exactly once), *including the elements that were pending when
+Shutdown was called*.  (`wg` counts the workers that have not ended; a worker ends only when it finds
+the heap of a shut-down queue empty, or drops the element it holds because of `CancelPendingElements`;
+a shut-down queue accepts nothing.) -/
+theorem C18_shutdown_returns_when_done {c : Cfg Sh Th} (hr : Reachable c) (hs : c.1.isShutdown = true)
+    (hsd : tsum sdN c.2 = 0) (hwg : c.1.wg = 0) :
+    c.1.heap = [] ∧ (∀ t ∈ c.2, isActive t = 0 ∧ isParked t = 0) ∧
+    ∀ e, Th.hk e ∉ c.2 ∧ Th.sel e ∉ c.2 ∧ Th.selSD e ∉ c.2 ∧ Th.chk e ∉ c.2 ∧ Th.wrap e ∉ c.2 := by
+  obtain ⟨m, ts, hts, hreach⟩ := hr
+  obtain ⟨h1, h2⟩ := shutdown_done (allW_reach hts hreach) hs hsd hwg
+  refine ⟨h1, h2, fun e => ⟨?_, ?_, ?_, ?_, ?_⟩⟩ <;>
+    (intro hm; have := (h2 _ hm).1; simp [isActive] at this)
+
+/-- The last step of `Executor.Shutdown` (the return from `shutdownWG.Wait()`) is enabled exactly when
+the WaitGroup is at zero. -/
+theorem C18_shutdown_return_step (s : Sh) (script : List EnvOp) :
+    step s (.ctl .sdWait script) ≠ [] ↔ s.wg = 0 := by
+  simp only [step, ctlStep]
+  split <;> simp_all
+
+/-- A reachable configuration in which `Executor.Shutdown()` (no flag) is about to return: the task that
+was pending when it was called has been delivered and has run (hypotheses of
+`C18_shutdown_returns_when_done`). -/
+def wDone : Cfg Sh Th :=
+  runSched sys (initCfg 0 [.idle, .ticker, .ctl .ready [.exec 1 1 .plain 10, .shutdown {}]])
+    [(2, 0), (2, 0), (2, 0), (2, 0), (2, 0), (0, 0), (1, 0), (0, 0), (0, 0), (0, 0), (0, 0), (0, 0), (0, 0)]
+
+example : Reachable wDone ∧ wDone.1.isShutdown = true ∧ tsum sdN wDone.2 = 0 ∧ wDone.1.wg = 0 ∧
+    wDone.2 = [.exited, .ticker, .ctl .sdWait []] ∧
+    wDone.1.log = [.run 0 1, .deliver 0 1, .shutdown false false, .sched 0 (some 1) 1] :=
+  ⟨⟨0, _, ⟨by decide, by decide⟩, runSched_reach _ _ _⟩, by decide⟩
 
 /-! ### non-vacuity -/
 
